@@ -1,7 +1,10 @@
 (* Sys.v — the composite per-payment-hash transition system:
      node side  (survives crashes): datastore record + attempt records, sendpay parts, running pay commands
      plugin side (lost at a crash) : table entry (PaymentState), payment_lifecycle tasks, outstanding RPC calls
-   One [step] = one environment event followed by "run every task until all are blocked".
+   One [step] = one task segment: an environment event and what the task it wakes does until its next await.
+   The lifecycle's reaction to the ready / fail signals is its OWN event (EvPoll), so HTLCs may overtake it, as
+   they can on the multi-threaded runtime; the harness (single thread, run to quiescence) always shows the two
+   back to back, and Check/SysCheck.gstep fuses them accordingly.
    Models /repo/src/htlc_manager.rs (handle_htlc after classification, PaymentState,
    payment_lifecycle, resolve), store.rs (ClnDatastore as RPC scripts), payment_provider.rs
    (pay / wait_payment as RPC scripts) and the CLN side as the contract N1-N6 (DESIGN 3.3). *)
@@ -246,6 +249,7 @@ End Lifecycle.
 (* ---------- events ---------- *)
 Inductive event :=
 | EvHtlc (h : htlc)
+| EvPoll (sel : bool)          (* the lifecycle sleeping in the select! looks at its two queues (it may lag behind the HTLC tasks) *)
 | EvProcess (cid : nat) (f : fault)
 | EvDeliver (cid : nat) (sel : bool)
 | EvPart (pid : nat) (st : pstat)
@@ -329,13 +333,12 @@ Definition step (c : cfg) (s : sys) (ev : event) : sys * list output :=
                    calls s ++ mk_calls [QListState], [OCall base QListState])
         end in
       let e1 := e_handle c e0 h in
-      let s1 := {| nd := nd s; pl := {| entry_ := Some e1; lcs := lcs0; next_att := next_att p |}; calls := calls0;
-                   now := now s; height := height s |} in
-      match find_select 0 lcs0 with
-      | Some (i, d, li) =>
-          let '(s2, o2) := apply_adv s1 i (select_poll c li (length calls0) (height s) (now s) d (Some e1) true (next_att p)) in
-          (s2, outs0 ++ o2)
-      | None => (s1, outs0)
+      ({| nd := nd s; pl := {| entry_ := Some e1; lcs := lcs0; next_att := next_att p |}; calls := calls0;
+          now := now s; height := height s |}, outs0)
+  | EvPoll sel =>
+      match find_select 0 (lcs p) with
+      | Some (i, d, li) => apply_adv s i (select_poll c li (length (calls s)) (height s) (now s) d (entry_ p) sel (next_att p))
+      | None => (s, [])
       end
   | EvProcess cid f =>
       match nth_error (calls s) cid with
@@ -392,6 +395,12 @@ Definition step (c : cfg) (s : sys) (ev : event) : sys * list output :=
       ({| nd := set_payrun (nd s) 0; pl := {| entry_ := None; lcs := []; next_att := next_att p |};
           calls := kill_calls (calls s); now := now s; height := height s |}, [])
   end.
+
+(* what a single-threaded runtime that runs to quiescence shows for one HTLC: the handle_htlc segment and, back to
+   back, the lifecycle's poll of its two queues (this is the granularity of the correspondence check) *)
+Definition step_htlc (c : cfg) (s : sys) (h : htlc) (sel : bool) : sys * list output :=
+  let '(s1, o1) := step c s (EvHtlc h) in
+  let '(s2, o2) := step c s1 (EvPoll sel) in (s2, o1 ++ o2).
 
 Fixpoint run (c : cfg) (s : sys) (evs : list event) : sys * list (list output) :=
   match evs with
